@@ -400,17 +400,9 @@ func applySetUpdates(dir string, opts GlobalOptions, id string, updates map[stri
 	repoDir := filepath.Dir(dir)
 
 	// result.path + result.summary must come together
-	resultPath, hasPath := updates["result.path"]
-	resultSummary, hasSummary := updates["result.summary"]
-	if hasPath || hasSummary {
-		if !hasPath {
-			return errors.New("result.summary requires result.path=")
-		}
-		if !hasSummary {
-			return errors.New("result.path requires result.summary=")
-		}
-		delete(updates, "result.path")
-		delete(updates, "result.summary")
+	updates, hasPath, resultSummary, resultPath, err := splitResultUpdates(updates)
+	if err != nil {
+		return err
 	}
 
 	// One lock section for the whole command: a refused field leaves nothing behind.
